@@ -57,7 +57,13 @@ template <typename CU, gr_encform E> static int run_count(const Witness &w, bool
     if (nulmode) b[n] = 0;
     size_t total = n + (nulmode ? 1 : 0);
     const void *err = (const void *)0x1;
-    size_t r = gr_count_unicode_characters(E, b, nulmode ? NULL : b + n, &err);    // ASan aborts on any read outside the buffer
+    bool noerr = w.num("w_noerr") != 0;
+    size_t r = gr_count_unicode_characters(E, b, nulmode ? NULL : b + n, noerr ? (const void **)0 : &err);    // ASan aborts on any read outside the buffer
+    if (noerr) {   // without pError only the count can be observed
+        size_t cnt0 = 0, pos0 = 0; while (pos0 < total) { ref_t e0 = REF<CU>(b + pos0, total - pos0); if (!e0.ok || e0.usv == 0) break; pos0 += e0.len; ++cnt0; }
+        if (r > cnt0) REPLAY_FAIL("count %zu exceeds the %zu well-formed characters in the buffer (pError == NULL)", r, cnt0);
+        REPLAY_OK("count without pError");
+    }    // ASan aborts on any read outside the buffer
     // reference count
     size_t cnt = 0, pos = 0; bool ill = false; size_t illpos = 0;
     while (pos < total) { ref_t e = REF<CU>(b + pos, total - pos); if (!e.ok) { ill = true; illpos = pos; break; } if (e.usv == 0) break; pos += e.len; ++cnt; }
